@@ -116,57 +116,94 @@ def check_required_parts(run, fx, rs):
 
 def check_annotations(run, fx, rs):
     rule = "R11.annotation-handler"
-    run.rule(rule, "the annotation handler of parse_ixdtf intercepts only `u-ca`: it keeps the first calendar, flags a "
-                   "second one when either is critical, and returns every other annotation to the ixdtf parser; a flagged "
-                   "duplicate is a RangeError after parsing")
+    run.rule(rule, "the annotation handler of parse_ixdtf intercepts only `u-ca`: it keeps the first calendar, a second one is an "
+                   "error exactly when either of the two is critical, and every other annotation is handed back to the ixdtf "
+                   "parser. Decided by folding parse_ixdtf with the external parser replaced by a script that feeds the handler "
+                   "each sequence of annotations the rule distinguishes (none / one / two calendars with every combination "
+                   "of critical flags / a foreign key) and observing the result")
     h = rs.fn(P + "parse_ixdtf")
     if h is None:
         run.anchor_missing(rule, "parse_ixdtf", "not found")
         return
-    clos = [n for n in hir_walk(h.hir) if isinstance(n, dict) and n.get("k") == "closure" and len(n["params"]) == 1
-            and "Annotation" in str(n["params"][0]) or (isinstance(n, dict) and n.get("k") == "closure" and
-                                                         any(isinstance(x, dict) and x.get("k") == "lit" and x["v"].get("str") == "u-ca"
-                                                             for x in hir_walk(n)))]
-    if not clos:
-        run.anchor_missing(rule, "handler", "annotation handler closure not found")
-        return
-    c = clos[0]
-    pname = c["params"][0].get("name")
-    keycmp = [n for n in hir_walk(c) if isinstance(n, dict) and n.get("k") == "bin" and n["op"] == "==" and
-              any(isinstance(x, dict) and x.get("k") == "lit" and x["v"].get("str") == "u-ca" for x in hir_walk(n)) and
-              any(isinstance(x, dict) and x.get("k") == "field" and x["name"] == "key" for x in hir_walk(n))]
-    run.check(len(keycmp) == 1, rule, "key", "compares annotation.key with \"u-ca\"",
-              "the handler no longer compares the annotation key with \"u-ca\"", "%s:%s" % (h.file, node_line(c)))
-    # the flag assignment and its condition
-    flag_ok = False
-    for n in hir_walk(c):
-        if isinstance(n, dict) and n.get("k") == "if":
-            crit = [x["name"] for x in hir_walk(n["cond"]) if isinstance(x, dict) and x.get("k") == "field" and x["name"] == "critical"]
-            bases = [str(x["e"].get("res", {}).get("local")) for x in hir_walk(n["cond"]) if isinstance(x, dict)
-                     and x.get("k") == "field" and x["name"] == "critical"]
-            sets = [x for x in hir_walk(n["then"]) if isinstance(x, dict) and x.get("k") == "assign" and
-                    x["b"].get("k") == "lit" and x["b"]["v"].get("bool") is True]
-            ors = n["cond"].get("k") == "bin" and n["cond"]["op"] == "||"
-            if len(crit) == 2 and sets and ors and len(set(bases)) == 2:
-                flag_ok = True
-    run.check(flag_ok, rule, "critical-duplicate", "second calendar with either critical -> flag",
-              "the handler does not flag a duplicate calendar when either annotation is critical",
-              "%s:%s" % (h.file, node_line(c)))
-    tail = c["body"].get("expr") if c["body"].get("k") == "block" else c["body"]
-    ret_some = tail is not None and tail.get("k") == "call" and str(tail.get("ctor", "")).endswith("Option::Some") and \
-        tail["args"][0].get("k") == "path" and tail["args"][0]["res"].get("local") == pname
-    run.check(ret_some, rule, "unknown-handed-back", "other annotations are returned to the parser",
-              "annotations other than u-ca are not handed back to the ixdtf parser (unknown critical annotations would be "
-              "accepted)", "%s:%s" % (h.file, node_line(c)))
-    # flagged duplicate -> RangeError
-    errs = [n for n in hir_walk(h.hir) if isinstance(n, dict) and n.get("k") == "if" and n["cond"].get("k") == "path"
-            and "duplicate" in str(n["cond"]["res"].get("local", ""))]
-    okr = False
-    for n in errs:
-        okr = any(isinstance(x, dict) and x.get("k") == "call" and str(x.get("fn", "")).endswith("TemporalError::range")
-                  for x in hir_walk(n["then"])) and any(isinstance(x, dict) and x.get("k") == "ret" for x in hir_walk(n["then"]))
-    run.check(okr, rule, "duplicate-error", "flagged duplicate -> RangeError",
-              "a flagged critical duplicate calendar is not turned into a RangeError", h.loc)
+    ANN = "ixdtf::parsers::records::Annotation"
+
+    def ann(key, value, critical):
+        return H.S(ANN, (("critical", critical), ("key", key), ("value", value)))
+
+    def run_script(script):
+        handed_back = []
+
+        def parser_stub(args, env, ev):
+            clo = next((a for a in args if isinstance(a, H.Closure)), None)
+            if clo is None:
+                return NotImplemented
+            penv = dict(clo.env)
+            for a in script:
+                e2 = dict(penv)
+                if len(clo.node["params"]) != 1 or ev.bind(clo.node["params"][0], a, e2) is not True:
+                    return NotImplemented
+                try:
+                    r = ev.ev(clo.node["body"], e2)
+                except H.Return as rr:
+                    r = rr.value
+                handed_back.append(r)
+                for k in penv:                       # assignments to captured variables persist between calls
+                    if k in e2:
+                        penv[k] = e2[k]
+            for k, v in penv.items():                 # ... and are visible to the function after the parser returns
+                if k in env and clo.env.get(k) is not v:
+                    env[k] = v
+            return H.V(H.OK, (H.S("ixdtf::parsers::records::IxdtfParseRecord",
+                                  (("date", H.V(H.SOME, (H.Sym("date", ()),))), ("calendar", H.V(H.NONE, ())))),))
+        parser_stub.wants_env = True
+        ev = H.Evaluator(fx)
+        ev.inline = lambda p: p.startswith("temporal_rs::")
+        ev.stubs["_with_annotation_handler"] = parser_stub
+        ev.lossy = []
+        try:
+            res = ev.call_fn(h, ["SRC", H.V(P + "ParseVariant::DateTime", ())])
+        except (H.Panic, H.Budget):
+            return None, handed_back
+        return res, handed_back
+    CA = "u-ca"
+    cases = [("no-calendar", [], "ok-none"), ("one-calendar", [ann(CA, "first", False)], "ok-first"),
+             ("one-critical-calendar", [ann(CA, "first", True)], "ok-first"),
+             ("two/neither-critical", [ann(CA, "first", False), ann(CA, "second", False)], "ok-first"),
+             ("two/first-critical", [ann(CA, "first", True), ann(CA, "second", False)], "err"),
+             ("two/second-critical", [ann(CA, "first", False), ann(CA, "second", True)], "err"),
+             ("two/both-critical", [ann(CA, "first", True), ann(CA, "second", True)], "err"),
+             ("foreign-key", [ann("x-foo", "bar", True)], "ok-none")]
+    for name, script, want in cases:
+        res, back = run_script(script)
+        cal = None
+        kind = "?"
+        if res is not None and is_err(res):
+            kind = "err" if err_kind(res) == "Range" else "err-" + str(err_kind(res))
+        elif res is not None and is_ok(res) and isinstance(res.args[0], H.S):
+            cal = H.sfield(res.args[0], "calendar")
+            if isinstance(cal, H.V) and cal.path == H.NONE:
+                kind = "ok-none"
+            elif isinstance(cal, H.V) and cal.path == H.SOME and cal.args[0] == "first":
+                kind = "ok-first"
+            elif isinstance(cal, H.V) and cal.path == H.SOME and not H.has_sym(cal):
+                kind = "ok-other"
+        if kind == "?":
+            run.ok(rule, name, "parse_ixdtf does not fold on this annotation script: not decided", h.loc, nontrivial=False)
+            continue
+        run.check(kind == want, rule, name, "%s -> %s" % (name, want),
+                  "with the annotations %s parse_ixdtf gives %s (calendar %s); expected %s" %
+                  ([("%s=%s%s" % (H.sfield(a, "key"), H.sfield(a, "value"), "!" if H.sfield(a, "critical") else "")) for a in script],
+                   kind, show(cal)[:40] if cal is not None else "-", want), h.loc)
+        if name == "foreign-key":
+            okb = len(back) == 1 and isinstance(back[0], H.V) and back[0].path == H.SOME and back[0].args[0] == script[0]
+            run.check(okb, rule, "unknown-handed-back", "other annotations are returned to the parser unchanged",
+                      "an annotation other than u-ca is not handed back to the ixdtf parser (handler returned %s): unknown critical "
+                      "annotations would be accepted" % [show(b)[:60] for b in back], h.loc)
+        elif script:
+            okn = all(isinstance(b, H.V) and b.path == H.NONE for b in back)
+            run.check(okn, rule, name + "/consumed", "calendar annotations are consumed by the handler",
+                      "a u-ca annotation is handed back to the parser (handler returned %s)" % [show(b)[:60] for b in back], h.loc)
+    run.exhaustive_tables.append("annotation handler (8 scripts: calendars x critical flags, foreign key)")
 
 
 def walk_parent(node, parent=None, grand=None):
